@@ -30,6 +30,8 @@ def run(ctx):
     ctx.guarded('R07e', CF + 'serialize_chunk', lambda: r07e(ctx))
     ctx.rule('R07f', 'a loop that fills a buffer with several partial reads (the byte count of each read is added to a cursor) reads into the unread tail buf[cursor..]: otherwise a header delivered in two pieces is overwritten and the stream position is lost (the stream decoder then differs from the sync decoder)')
     ctx.guarded('R07f', 'fill loops', lambda: fill_loops(ctx, 'R07f'))
+    ctx.rule('R07g', 'the chunk-range accessors of CasObject take end-exclusive ranges: a range is rejected for its end only where end > num_chunks is established and served only where end <= num_chunks (the range that ends at the last chunk is valid)')
+    ctx.guarded('R07g', 'chunk-range accessors', lambda: __import__('xl.rules_r5', fromlist=['x']).end_exclusive_ranges(ctx, 'R07g'))
 
 
 def norm_tokens(a, direction):
@@ -239,7 +241,7 @@ def steps(a, F):
                 d = c
     eq = edges_where(a, lambda op, l, r: op == 'Eq' and ((d is not None and flow.mentions(l, lambda z: a.rooted_at(z, d))) and flow.mentions(r, lambda z: z[0] == 'call' and sg(z[1]).endswith('get_uncompressed_length') and a.rooted_at(z[2][0], h))))
     oks = [(b, si, e) for (b, si, k, e) in a.ret_sites() if k == 'ok']
-    out['length check'] = bool(eq) and len(oks) == 1 and a.cfg.must_pass(oks[0][0], via_edges=eq)
+    out['length check'] = bool(eq) and len(oks) >= 1 and all(a.cfg.must_pass(o_[0], via_edges=eq) for o_ in oks)
     if len(oks) == 1:
         tup = oks[0][2][3][0][1]
         c0, c1 = tup[3][0][1], tup[3][1][1]
